@@ -7,7 +7,10 @@ stages, the all-shares write-enabler loop, the timing-safe comparison, the
 closed set of callers of the mutable write path, that both the per-share and
 the per-request test verdicts are conjunctions over all their comparisons, and that
 the early size refusal and the write stage each visit every share the request names
-(the refusal: every write of it).  DESIGN.md section 5, C24."""
+(the refusal: every write of it), that the early size refusal admits nothing the
+container refuses at write time (C24.12), and that the protocol front ends hand the
+test stage the client's own test vectors (C24.11, adopted from C23.9).
+DESIGN.md section 5, C24."""
 from sa.h import *
 
 EXPLANATION = (
@@ -43,14 +46,24 @@ EXPLANATION = (
     "succeeded / failed - whether it stands in a condition, an assignment, and/or, all()/any() or a return - and on "
     "every normal path the result is falsy once any comparison failed, True only if none failed and the loop over the "
     "whole vector ran to completion, and no iteration passes an entry over; (6) uses the same evaluation for the "
-    "per-request verdict over the shares.  Undecided (explicit non-claim): whether the early size condition is "
-    "as strong as the one of the write step (orientation and MAX_SIZE operand are decided under C23.8, the > / >= boundary by "
-    "nobody); that every iteration of the write stage applies its share's own vector, unlinks only under new_length == 0 and "
+    "per-request verdict over the shares; (11, adopted from C23.9 as C24.11.9) the Foolscap and HTTP entry points hand "
+    "slot_testv_and_readv_and_writev the request's own vectors - per share number, element by element, every test as (offset, "
+    "the request's size field, b'eq', specimen), no entry or share dropped, nothing recomputed - so the verdict that guards the "
+    "writes is the verdict of the tests the client sent; (12) the two size limits agree: for every raise statement of a "
+    "request-validation error that is reachable below a share's writev (the call chain is followed through the storage package, "
+    "callee parameters bound to the call's arguments), the conditions that hold on every path to it - as linear inequalities over "
+    "the write's offset and data length with MAX_SIZE / DATA_OFFSET folded to their numbers, conditions on the share's state dropped - "
+    "contain one that implies every condition of some path to the early raise inside the loop over all writes of all shares (only "
+    "len(data) >= 0 is assumed); i.e. nothing the up-front check admits is refused while the request is being applied.  "
+    "Undecided (explicit non-claim): that a write the up-front check refuses is really too large (no legal write is refused: "
+    "C23.8); non-linear or chained size conditions (-> ANALYSIS-ERROR / treated as not about the write); that every iteration of the write stage applies its share's own vector, unlinks only under new_length == 0 and "
     "guards os.rmdir by emptiness (C23.5), and that writev applies every entry of the data vector (C23.4); which leases are "
     "renewed under renew_leases (C25); I/O errors (OSError) in the middle of the "
     "write stage; exceptional paths inside check_testv (a raise aborts the request before any write); that the "
     "comparison operands are the share's data at (offset, length) and the entry's specimen (decided under C23.7); NoSpace from the lease step after all writes; interleaving with other requests; values compared.")
-TECHNIQUE = "static analysis: CFG must-precede/guard rules, filesystem-effect summaries over the call graph, who-may-call, loop-coverage of the request's vectors"
+TECHNIQUE = ("static analysis: CFG must-precede/guard rules, filesystem-effect summaries over the call graph, who-may-call, loop-coverage of "
+             "the request's vectors, interprocedural path conditions as linear inequalities (implication between the early and the "
+             "write-time size refusal), provenance terms of the protocol front ends' arguments (adopted)")
 
 MSF = "storage.mutable:MutableShareFile"
 SRV = "storage.server:StorageServer"
@@ -755,6 +768,18 @@ def iteration_avoiding(cfg, head, gate_node, gate_edge=None):
     return None
 
 
+def data_loop_of(vf, vcfg, vnm, vtw, rn):
+    """The innermost loop around the raise statement `rn` of vf that walks an element of the vector tuple of the share an
+    outer loop is visiting -> (that loop, its CFG head, the share loop, element index, every entry kept?) or None."""
+    loops = loops_around(vf, rn.ast)
+    for j in range(len(loops) - 1, -1, -1):
+        h = head_of(vf, vcfg, loops[j])
+        comp = share_component(vf, vnm, h, loops[j].iter, vtw, loops[:j])
+        if comp:
+            return (loops[j], h) + comp
+    return None
+
+
 def validation_gaps(vf, vtw, rn, data_idx, what):
     """The raise statement `rn` of function vf refuses a request before anything was written.  For that to protect
     all-or-nothing it has to be evaluated for every write of every share the request names (collection parameter
@@ -762,14 +787,7 @@ def validation_gaps(vf, vtw, rn, data_idx, what):
     falls short; AnalysisError when the loops are not of a recognised form."""
     vcfg = vf.cfg()
     vnm = FlowNorm(vf)
-    loops = loops_around(vf, rn.ast)
-    found = None
-    for j in range(len(loops) - 1, -1, -1):
-        h = head_of(vf, vcfg, loops[j])
-        comp = share_component(vf, vnm, h, loops[j].iter, vtw, loops[:j])
-        if comp:
-            found = (loops[j], h) + comp
-            break
+    found = data_loop_of(vf, vcfg, vnm, vtw, rn)
     if found is None:
         raise AnalysisError("%s: the early check raising %s is not recognised as a loop over the write vectors of the "
                             "request's shares" % (short(vf), what))
@@ -812,6 +830,278 @@ def validation_gaps(vf, vtw, rn, data_idx, what):
             gaps.append((tests[-1].ast, "the early %s check does not depend on '%s' of each write: a write it lets through can still be "
                          "refused while it is applied" % (what, "', '".join(missing)), None))
     return gaps
+
+
+# ------------------------------------------------- the two size limits agree (C24.12)
+W_OFF, W_LEN = "write.offset", "len(write.data)"
+_VEC, _PAIR, _DATA = ("vec",), ("pair",), ("data",)
+_PLAIN_WRAPPERS = ("list", "tuple", "iter", "reversed", "sorted")
+
+
+def _plain_vector(e):
+    """Strip wrappers and slices that keep the shape of the elements (not enumerate / zip)."""
+    while True:
+        if isinstance(e, ast.Call) and isinstance(e.func, ast.Name) and e.func.id in _PLAIN_WRAPPERS and len(e.args) == 1 \
+                and not isinstance(e.args[0], ast.Starred) and not e.keywords:
+            e = e.args[0]
+        elif isinstance(e, ast.Call) and isinstance(e.func, ast.Attribute) and e.func.attr == "copy" and not e.args and not e.keywords:
+            e = e.func.value
+        elif isinstance(e, ast.Subscript) and isinstance(e.slice, ast.Slice):
+            e = e.value
+        else:
+            return e
+
+
+class WriteTerms:
+    """The integer expressions of ONE function as polynomials over the two quantities of one write of the request -
+    its offset and the length of its data - and folded constants; everything else (share state, other locals) is an
+    opaque atom.  `binding` says which names of the function stand for the request's data vector (_VEC), one write
+    (_PAIR), its data (_DATA) or a polynomial; loops over the data vector bind their targets.  Names so bound must
+    have no other binding in the function (fail closed otherwise)."""
+
+    def __init__(self, idx, fo, fn, binding):
+        self.idx, self.fo, self.fn = idx, fo, fn
+        self.cfg = fn.cfg()
+        self.fnm = FlowNorm(fn)
+        self.B = {}
+        self.heads = set()
+        self.stored = {}
+        for x in func_own_nodes(fn):
+            if isinstance(x, ast.Name) and isinstance(x.ctx, (ast.Store, ast.Del)):
+                self.stored[x.id] = self.stored.get(x.id, 0) + 1
+        self.locals = set(self.stored) | set(fn.params)
+        for k, v in binding.items():
+            self._bind(k, v, 0)
+
+    def _bind(self, name, v, allowed):
+        if self.stored.get(name, 0) != allowed or name in self.B:
+            raise AnalysisError("%s: '%s' stands for a part of the request's write vector and is bound more than once: the "
+                                "size conditions on it cannot be compared" % (short(self.fn), name))
+        self.B[name] = v
+
+    def bind_data_loops(self):
+        """Bind the targets of every loop of the function that walks the data vector."""
+        for L in func_own_nodes(self.fn):
+            if isinstance(L, ast.For):
+                h = head_of(self.fn, self.cfg, L)
+                if h.id not in self.heads and self.value(h, L.iter) == _VEC:
+                    self.bind_loop(L, h)
+        return self
+
+    def bind_loop(self, L, h):
+        t = L.target
+        if isinstance(t, ast.Name):
+            self._bind(t.id, _PAIR, 1)
+        elif isinstance(t, (ast.Tuple, ast.List)) and len(t.elts) == 2 and all(isinstance(x, ast.Name) for x in t.elts):
+            self._bind(t.elts[0].id, ("poly", Poly.atom(W_OFF)), 1)
+            self._bind(t.elts[1].id, _DATA, 1)
+        else:
+            raise AnalysisError("%s: the loop over the write vector binds '%s', not one (offset, data) write" % (
+                short(self.fn), src(self.fn, t)))
+        self.heads.add(h.id)
+
+    def opaque(self, e):
+        return ("poly", Poly.atom("~%s:%s" % (self.fn.qual, norm_plain(e))))
+
+    def value(self, n, e, depth=6):
+        if isinstance(e, (ast.Call, ast.Subscript)):
+            inner = _plain_vector(e)
+            if inner is not e and self.value(n, inner, depth) == _VEC:
+                return _VEC
+        if isinstance(e, ast.Name):
+            if e.id in self.B:
+                return self.B[e.id]
+            d = self.fnm.env_at(n).defs.get(e.id)
+            if d is not None and depth > 0:
+                return self.value(n, d, depth - 1)
+            if e.id not in self.locals:
+                return self.folded(e)
+            return self.opaque(e)
+        if isinstance(e, ast.Constant):
+            if isinstance(e.value, int) and not isinstance(e.value, bool):
+                return ("poly", Poly.const(e.value))
+            return self.opaque(e)
+        if isinstance(e, ast.Subscript):
+            b = self.value(n, e.value, depth)
+            i = e.slice
+            if b == _PAIR and isinstance(i, ast.Constant) and i.value in (0, 1) and not isinstance(i.value, bool):
+                return ("poly", Poly.atom(W_OFF)) if i.value == 0 else _DATA
+            return self.opaque(e)
+        if isinstance(e, ast.Call):
+            if isinstance(e.func, ast.Name) and e.func.id == "len" and len(e.args) == 1 and not e.keywords \
+                    and "len" not in self.locals and self.value(n, e.args[0], depth) == _DATA:
+                return ("poly", Poly.atom(W_LEN))
+            return self.opaque(e)
+        if isinstance(e, ast.Attribute):
+            return self.folded(e)
+        if isinstance(e, ast.UnaryOp) and isinstance(e.op, (ast.USub, ast.UAdd)):
+            v = self.value(n, e.operand, depth)
+            if v[0] == "poly":
+                return ("poly", -v[1] if isinstance(e.op, ast.USub) else v[1])
+            return self.opaque(e)
+        if isinstance(e, ast.BinOp) and isinstance(e.op, (ast.Add, ast.Sub, ast.Mult)):
+            l, r_ = self.value(n, e.left, depth), self.value(n, e.right, depth)
+            if l[0] == "poly" and r_[0] == "poly":
+                return ("poly", l[1] + r_[1] if isinstance(e.op, ast.Add) else (l[1] - r_[1] if isinstance(e.op, ast.Sub) else l[1] * r_[1]))
+        return self.opaque(e)
+
+    def folded(self, e):
+        try:
+            v = self.fo.fold(e, self.fn.module, self.fn.cls)
+        except NotConstant:
+            v = None
+        if isinstance(v, int) and not isinstance(v, bool):
+            return ("poly", Poly.const(v))
+        return self.opaque(e)
+
+    def fact(self, n, lab):
+        """The inequality that holds on edge (n, lab) as a polynomial p meaning ``p >= 0`` over the integers, when it
+        speaks about the write (and constants) alone; 'other' for any other condition; None for a condition that
+        says nothing (not a test edge, or constant)."""
+        if n.kind != "test" or not isinstance(lab, tuple) or lab[0] not in ("T", "F"):
+            return None
+        pol = lab[0] == "T"
+        e = n.ast
+        if isinstance(e, ast.Name):
+            e = self.fnm.resolve(n, e)
+        while isinstance(e, ast.UnaryOp) and isinstance(e.op, ast.Not):
+            e, pol = e.operand, not pol
+        if not isinstance(e, ast.Compare) or len(e.ops) != 1 or not isinstance(e.ops[0], (ast.Lt, ast.LtE, ast.Gt, ast.GtE)):
+            return "other"
+        l, r_ = self.value(n, e.left), self.value(n, e.comparators[0])
+        if l[0] != "poly" or r_[0] != "poly":
+            return "other"
+        op = type(e.ops[0])
+        if not pol:
+            op = {ast.Lt: ast.GtE, ast.LtE: ast.Gt, ast.Gt: ast.LtE, ast.GtE: ast.Lt}[op]
+        l, r_ = l[1], r_[1]
+        p = {ast.Lt: r_ - l - Poly.const(1), ast.LtE: r_ - l, ast.Gt: l - r_ - Poly.const(1), ast.GtE: l - r_}[op]
+        if p.is_const():
+            return None
+        if p.atoms() <= {W_OFF, W_LEN} and all(len(k) <= 1 for k in p.t) and all(v.denominator == 1 for v in p.t.values()):
+            return p
+        return "other"
+
+    def arriving(self, start, first_label, init, targets, strict_for=None):
+        """Explore from `start` (only along `first_label` out of it when given; never back through it) and collect, for
+        each target node id, the set of (facts about the current write that hold on arrival, tainted?).  Facts lapse
+        when a loop over the data vector moves on to the next write.  With strict_for = a raise node, a condition
+        that is not about the write taints the path unless the raise is reached whatever the condition's outcome."""
+        cfg = self.cfg
+        ignorable = {}
+
+        def decided_anyway(t):
+            if t.id not in ignorable:
+                seen = fwd(cfg, [d for (d, l) in cfg.succ[t.id] if l != "exc"], stop=strict_for.id)
+                ignorable[t.id] = not any(cfg.nodes[x].kind in ("exit", "raise") or x == start.id or is_return(cfg.nodes[x])
+                                          for x in seen)
+            return ignorable[t.id]
+
+        def tr(n, lab, nxt, st):
+            if lab == "exc":
+                return None
+            if n is start:
+                if st[0] != "START" or (first_label is not None and lab != first_label):
+                    return None
+                st = ("RUN",) + st[1:]
+            _tag, facts, taint = st
+            if n.kind == "iter" and lab == "iter" and n.id in self.heads:
+                facts = frozenset()
+            f = self.fact(n, lab)
+            if isinstance(f, Poly):
+                facts = facts | {f}
+            elif f == "other" and strict_for is not None and not decided_anyway(n):
+                taint = True
+            return ("RUN", facts, taint)
+        vis, _par = explore(cfg, ("START", frozenset(init), False), tr, start=start, max_states=20000)
+        out = {}
+        for (nid, st) in vis:
+            if nid in targets and st[0] == "RUN":
+                out.setdefault(nid, set()).add((st[1], st[2]))
+        return out
+
+
+def show_fact(p):
+    """``p >= 0`` in readable form: <write terms> >= <constant>."""
+    lhs = Poly({k: v for k, v in p.t.items() if k != ()})
+    c = -p.t.get((), 0)
+    neg = all(v < 0 for v in lhs.t.values())
+    if neg:
+        return "%s <= %s" % (str(-lhs).strip("()"), -c)
+    return "%s >= %s" % (str(lhs).strip("()"), c)
+
+
+def fact_implies(l, e):
+    """(l >= 0) implies (e >= 0) for every write (data length >= 0; nothing is assumed about the offset)."""
+    d = e - l
+    return all(k in ((), (W_LEN,)) for k in d.t) and all(v >= 0 for v in d.t.values())
+
+
+class LateRefusals:
+    """Every point below a write step at which the request-validation error `name` is raised explicitly, with the facts
+    about the write being applied that hold there: the call chain is followed through the storage package with the
+    callee's parameters bound to what the call site passes (the data vector, one write, its data, or a polynomial
+    over the write's offset and data length)."""
+
+    def __init__(self, idx, fo, fx, rz, name):
+        self.idx, self.fo, self.fx, self.rz, self.name = idx, fo, fx, rz, name
+        self.out, self.seen, self.states = [], set(), 0
+
+    def enter(self, g, binding, prefix, chain=()):
+        key = (g.qual, tuple(sorted((k, str(v[-1])) for k, v in binding.items())), prefix)
+        if key in self.seen:
+            return
+        self.seen.add(key)
+        if len(self.seen) > 400 or g.qual in chain:
+            raise AnalysisError("%s: the call chain below the write step is too deep / recursive to compare the size "
+                                "conditions on it" % short(g))
+        wt = WriteTerms(self.idx, self.fo, g, binding).bind_data_loops()
+        cfg = wt.cfg
+        reach = cfg.reachable_nodes()
+        raises_, callers = {}, {}
+        for n in cfg.nodes:
+            if n.id not in reach or n.kind in ("entry", "exit", "raise"):
+                continue
+            if is_raise(n):
+                if raise_name(n) == self.name and self.name in self.rz.node_raises(g, cfg, n, frozenset([g.qual])):
+                    raises_[n.id] = n
+                continue
+            if self.name not in self.rz.node_raises(g, cfg, n, frozenset([g.qual])):
+                continue
+            hs = []
+            for c in node_calls(n, into_lambda=True):
+                for h in self.fx.callees(g, c):
+                    if h.module.name.startswith(STORAGE_PREFIX) and self.name in self.rz.of(h):
+                        hs.append((c, h))
+            if not hs:
+                raise AnalysisError("%s: cannot tell which callee of '%s' raises %s" % (short(g), src(g, n.ast), self.name))
+            callers[n.id] = (n, hs)
+        arr = wt.arriving(cfg.entry, None, prefix, set(raises_) | set(callers))
+        self.states += len(cfg.nodes)
+        for nid in sorted(set(raises_) | set(callers)):
+            if nid not in arr:
+                raise AnalysisError("%s: '%s' can raise %s but is reached only along exceptional edges" % (
+                    short(g), src(g, cfg.nodes[nid].ast), self.name))
+        for nid, n in sorted(raises_.items()):
+            for (facts, _t) in sorted(arr[nid], key=lambda x: sorted(map(str, x[0]))):
+                self.out.append((g, n, facts))
+        for nid, (n, hs) in sorted(callers.items()):
+            for (c, h) in hs:
+                if any(isinstance(a, ast.Starred) for a in c.args) or any(k.arg is None for k in c.keywords):
+                    raise AnalysisError("%s: '%s' passes its arguments with * / **: what %s receives is not decided" % (
+                        short(g), src(g, c), short(h)))
+                ps = first_positional_params(h)
+                b2 = {}
+                for i, a in enumerate(c.args):
+                    if i < len(ps):
+                        b2[ps[i]] = wt.value(n, a)
+                for kw in c.keywords:
+                    if kw.arg in h.params:
+                        b2[kw.arg] = wt.value(n, kw.value)
+                b2 = {k: v for k, v in b2.items() if v in (_VEC, _PAIR, _DATA) or (v[0] == "poly" and not any(
+                    a.startswith("~") for a in v[1].atoms()))}
+                for (facts, _t) in sorted(arr[nid], key=lambda x: sorted(map(str, x[0]))):
+                    self.enter(h, b2, facts, chain + (g.qual,))
 
 
 # -------------------------------------------------------------------- rules
@@ -1247,6 +1537,7 @@ def run(ctx: Context):
                 r.violation(f_, f_.loc(nd), "%s takes %s as a value" % (short(f_), tail))
 
     # -- 8. all-or-nothing across the shares of one request ----------------------------
+    agree = {}      # request error -> (early raise statements, data vector index, late raising nodes): compared by C24.12
     with ctx.rule("C24.8", "R10", "_evaluate_write_vectors: a request-validation error that a share's write step can raise "
                   "is also raised before the first share is modified, for every write of every named share (validate "
                   "everything, then write)", expected=3) as r:
@@ -1327,6 +1618,8 @@ def run(ctx: Context):
         for name, lst in sorted(raisers.items()):
             late = [(n, where) for (n, where) in lst if n.id in after]
             early = [(fn, tw8, n, where) for (n, where) in lst if n.id not in after] + early_in_caller.get(name, [])
+            if late:
+                agree[name] = None
             if late and not early:
                 n, where = late[0]
                 r.violation(where, fn.loc(n.ast), "%s (raised in %s) can abort _evaluate_write_vectors at %s after an earlier "
@@ -1345,6 +1638,7 @@ def run(ctx: Context):
                     raise AnalysisError("%s: the early raise of %s is not a raise statement of this function or of a directly "
                                         "called helper that is given %s" % (short(fn), name, tw8))
                 di = data_index()
+                agree[name] = (cands, di, late)
                 verdicts, errors = [], []
                 for (vf, vtw, rn) in cands:
                     try:
@@ -1416,3 +1710,84 @@ def run(ctx: Context):
                 r.violation(fn, fn.loc(bad.ast), "the write stage can be left before every named share was written: the request "
                             "is applied to some shares only")
         r.count(len(c10.nodes) * len(steps))
+
+    # -- 12. the early refusal admits nothing that the write step refuses ------------------
+    with ctx.rule("C24.12", "R10", "validate everything, then write: whenever a share's write step refuses a write with a "
+                  "request-validation error, the up-front check over all shares refuses that write too - the condition of "
+                  "every late raise, in terms of the write's offset and data length along the call chain below writev, "
+                  "implies the condition of the early raise (the two size limits agree)", expected=2) as r:
+        if not agree:
+            raise AnalysisError("no request-validation error is raised both before and after the first mutating step of "
+                                "_evaluate_write_vectors (see C24.8): there are no two conditions to compare")
+        fo = get_folder(idx)
+        fn = idx.func(SRV + "._evaluate_write_vectors")
+        rz12 = Raises(fx)
+        for name, item in sorted(agree.items()):
+            if item is None:
+                r.site(fn, None, "%s is not refused early at all (reported by C24.8)" % name)
+                continue
+            cands, di, late = item
+            early_sets, tainted = [], []
+            for (vf, vtw, rn) in cands:
+                vcfg = vf.cfg()
+                found = data_loop_of(vf, vcfg, FlowNorm(vf), vtw, rn)
+                if found is None or found[3] != di:
+                    continue
+                wt = WriteTerms(idx, fo, vf, {})
+                wt.bind_loop(found[0], found[1])
+                got = wt.arriving(found[1], "iter", (), {rn.id}, strict_for=rn).get(rn.id, set())
+                r.count(len(vcfg.nodes))
+                clean = [f for (f, t) in got if not t]
+                if clean:
+                    r.site(vf, rn.ast, "up-front refusal of a write when " + " or when ".join(sorted(
+                        (" and ".join(sorted(show_fact(p) for p in f)) or "anything") for f in clean)))
+                    early_sets.extend(clean)
+                else:
+                    tainted.append((vf, rn))
+            if not early_sets:
+                if tainted:
+                    vf, rn = tainted[0]
+                    raise AnalysisError("%s: the early refusal '%s' depends on conditions that are not about the write's "
+                                        "offset and data length: what it admits is not decided" % (short(vf), src(vf, rn.ast)))
+                raise AnalysisError("the early refusal of %s is not inside a recognised loop over the writes (see C24.8)" % name)
+            lr = LateRefusals(idx, fo, fx, rz12, name)
+            for (n, _where) in late:
+                for c in calls_at(n, "writev"):
+                    a0 = arg(c, 0, "datav")
+                    for h in fx.callees(fn, c):
+                        if not h.module.name.startswith(STORAGE_PREFIX) or name not in rz12.of(h):
+                            continue
+                        ps = first_positional_params(h)
+                        pname = ps[0] if (c.args and a0 is c.args[0] and ps) else "datav"
+                        if a0 is None or pname not in h.params:
+                            raise AnalysisError("%s: which parameter of %s receives the data vector is not decided" % (short(fn), short(h)))
+                        lr.enter(h, {pname: _VEC}, frozenset())
+            r.count(lr.states)
+            if not lr.out:
+                raise AnalysisError("%s: no raise statement of %s found below the write step although the call graph "
+                                    "reports one" % (short(fn), name))
+            for (g, ln, facts) in lr.out:
+                cond = " and ".join(sorted(show_fact(p) for p in facts))
+                r.site(g, ln.ast, "write-time refusal when " + (cond or "<no condition on the write itself>"))
+                if any(all(any(fact_implies(l, e) for l in facts) for e in S_e) for S_e in early_sets):
+                    continue
+                gap = ""
+                for S_e in early_sets:
+                    for e in S_e:
+                        for l in facts:
+                            d = (e - l).const_value()
+                            if d is not None and d < 0:
+                                gap = " (its limit is %d lower than the up-front one)" % -d
+                up = " or when ".join(sorted(" and ".join(sorted(show_fact(p) for p in f)) or "anything" for f in early_sets))
+                r.violation(g, g.loc(ln.ast), "%s raises %s while a share is being written when %s%s, but the up-front check over "
+                            "all shares of the request refuses a write only when %s: a write it admits is refused in the "
+                            "middle of the write stage, after earlier shares of the same request were modified" % (
+                                short(g), name, (cond + " (conditions on the share's own state aside)") if cond else
+                                "a condition holds that is not about the write's offset and length", gap, up))
+
+    # -- 11. what the test stage is given is what the client sent ----------------------------
+    # The guard of (1) is only as good as the vectors it evaluates: a protocol front end that rebuilds a test vector with
+    # another read length, drops an entry or a share lets a failing test pass, and the writes are applied.  That the
+    # Foolscap and HTTP entry points hand slot_testv_and_readv_and_writev the request's own vectors, element by element,
+    # is decided by C23.9 (provenance terms of the argument expressions); adopted as C24.11.9.  C23 includes nothing.
+    ctx.include("C23", ["C23.9"], "C24.11")
